@@ -10,13 +10,18 @@ What is proved here, for every repository state and every header:
   states; that case is left to the correspondence + monitor);
 * an accepted header extends accumulated work by its own block work (so work is strictly monotone
   along a branch and "maximal among branch tips" bounds every header held in a branch).
-Histories with Clean/Save/Load are covered by the correspondence (model = code on every generated
+Histories that START from a Load are covered by `C01_after_load_submissions`: from the repository Load builds
+out of ANY consistent storage image (pruned root, side branches in any index order, unlinkable files), every
+history of submissions leaves the tip maximal and the best chain a linked chain down to the lowest height
+kept in memory (Proofs/LoadSound, Proofs/ForestStep: the order-of-acceptance invariant `Linked`).
+Histories with Clean/Save in the middle are covered by the correspondence (model = code on every generated
 history) and the monitor; the invariant across consolidation is not yet a theorem (`_partial`).
 -/
 import BRV.Proofs.Longest
 import BRV.Proofs.RepoWF
 import BRV.Proofs.RepoWork
 import BRV.Proofs.RepoExample
+import BRV.Proofs.ForestStep
 
 namespace BRV.Repo
 
@@ -540,5 +545,33 @@ theorem genesis_workWF : WorkWF genesisRepo.arena := by
     subst h0; decide
 
 example : exRepoC01 = genesisRepo := rfl
+
+theorem quiet_noAutoClean (hs : List (Hdr × Bool)) : ∀ r, Quiet r hs → NoAutoClean r hs := by
+  induction hs with
+  | nil => intro r _; trivial
+  | cons x xs ih => intro r hq; exact ⟨hq.2.1, ih _ hq.2.2⟩
+
+/-- **C01 for histories that start from a Load.** Whatever storage image Load read — any number of side
+    branches, any index order, a root pruned to the load depth, stale files —, as long as the image is
+    consistent (`StoreOK`, Proofs/LoadSound), after ANY history of submissions on the loaded repository (no
+    automatic clean due, no internal error): the reported tip is a tracked branch of maximal accumulated
+    work, and the best chain is defined from the lowest height the root keeps in memory up to the tip, each
+    header naming the one below it as its previous block. -/
+theorem C01_after_load_submissions (r0 : Repo) (depth : Int) (hd : 0 ≤ depth) (g : Hdr) (hst : StoreOK r0.store)
+    (subs : List (Hdr × Bool)) :
+    ∃ rl, load r0 depth g = (rl, none) ∧
+      (Quiet rl subs →
+        TipMax (submitAll rl subs) ∧
+        ∃ lo : Int, 0 ≤ lo ∧
+          (∀ x, lo ≤ x → x ≤ tipHeight (submitAll rl subs) →
+            ∃ d, (submitAll rl subs).at (submitAll rl subs).longest x = some d) ∧
+          (∀ x d d', (submitAll rl subs).at (submitAll rl subs).longest x = some d →
+            (submitAll rl subs).at (submitAll rl subs).longest (x - 1) = some d' → d.hdr.prev = d'.hdr.id)) := by
+  obtain ⟨rl, hl, hok⟩ := load_sound r0 depth hd g hst
+  refine ⟨rl, hl, fun hq => ?_⟩
+  have htm : TipMax (submitAll rl subs) := C01_tip_maximal_submissions rl subs ⟨hok.tip, hok.heaviest⟩ hq
+  have hf := forestOK_submitAll subs rl hok.forest (quiet_noAutoClean subs rl hq)
+  obtain ⟨lo, h0, _, hcov, hlk⟩ := forest_best_chain _ hf htm.1
+  exact ⟨htm, lo, h0, hcov, hlk⟩
 
 end BRV.Repo
